@@ -101,7 +101,7 @@ def multi_key(c):
 
 
 def cfg_key(c):
-    return f"{c['world']}/{c['fields']}/{'cache' if c['cache'] else 'nocache'}/{c['interp']}/{c.get('gfp') or 'nogfp'}{'/reuse' if c.get('reuse') else ''}{'/i3' if c.get('i3') else ''}{multi_key(c)}"
+    return f"{c['world']}/{c['fields']}/{'cache' if c['cache'] else 'nocache'}/{c['interp']}/{c.get('gfp') or 'nogfp'}{'/reuse' if c.get('reuse') else ''}{'/i3' if c.get('i3') else ''}{'/chain' if c.get('chain') else ''}{multi_key(c)}"
 
 
 def cfg_coq(c):
@@ -515,7 +515,190 @@ class MRig:
         raise ValueError(op)
 
 
+CHAIN_DATA = {
+    # (ra, dec, ang_err, x) per event, total number of events
+    'A': ([(1.10, 0.25, 0.30, 3.0), (2.20, -0.10, 0.45, 5.0), (0.50, 0.60, 0.25, 7.0), (1.70, 0.05, 0.60, 1.5)], 20),
+    'B': ([(1.30, 0.35, 0.40, 2.5), (1.90, -0.25, 0.35, 6.5), (0.90, 0.10, 0.50, 4.0), (2.40, -0.30, 0.30, 8.5)], 20),
+    'C': ([(1.00, 0.30, 0.35, 3.5), (2.00, -0.20, 0.30, 5.5), (0.70, 0.50, 0.55, 6.0), (1.50, 0.00, 0.40, 2.0),
+           (2.60, -0.40, 0.45, 9.0), (0.30, 0.20, 0.65, 0.5)], 25),
+}
+CHAIN_SOURCES = {1: [(1.0, 0.3), (2.0, -0.2)], 2: [(1.4, 0.1), (2.3, -0.35)]}
+CHAIN_CFGS = [dict(world=w, fields='none', cache=ca, interp=i, gfp=None, chain=True)
+              for (w, ca, i) in (('small', True, 'lin'), ('small', False, 'par'), ('mjd', True, 'par'))]
+
+
+class ChainRig:
+    """the classes of the property's state list that precompute per trial, chained as in an analysis with TWO sources:
+    SourceWeightedPDFRatio( PDFRatioProduct( SigOverBkgPDFRatio(RayleighPSFPointSourceSignalSpatialPDF [_pd],
+    BackgroundI3SpatialPDF [_pd]), SigOverBkgPDFRatio(SignalMultiDimGridPDFSet [masked _cache_pd path, interpolation
+    cache with per-source key vectors], BackgroundMultiDimGridPDF) ) ) in a ZeroSigH0SingleDatasetTCLLHRatio under a
+    MultiDatasetTCLLHRatio (which drives the weight services).  Predicates only (fresh twin, repeat, probes)."""
+
+    def __init__(self, c, src):
+        from skyllh.core.config import Config
+        from skyllh.core.trialdata import TrialDataManager
+        from skyllh.core.source_hypo_grouping import SourceHypoGroupManager, SourceHypoGroup
+        from skyllh.core.source_model import PointLikeSource
+        from skyllh.core.flux_model import PowerLawEnergyFluxProfile, SteadyPointlikeFFM
+        from skyllh.core.parameters import Parameter, ParameterModelMapper, ParameterGrid, ParameterSet
+        from skyllh.core.binning import BinningDefinition
+        from skyllh.core.signalpdf import (RayleighPSFPointSourceSignalSpatialPDF, SignalMultiDimGridPDF,
+                                           SignalMultiDimGridPDFSet)
+        from skyllh.core.backgroundpdf import BackgroundMultiDimGridPDF
+        from skyllh.i3.backgroundpdf import BackgroundI3SpatialPDF
+        from skyllh.core.pdfratio import SigOverBkgPDFRatio, SourceWeightedPDFRatio, PDFRatioProduct
+        from skyllh.core.llhratio import ZeroSigH0SingleDatasetTCLLHRatio, MultiDatasetTCLLHRatio
+        from skyllh.core.minimizer import Minimizer, LBFGSMinimizerImpl
+        from skyllh.core.interpolate import (Linear1DGridManifoldInterpolationMethod,
+                                             Parabola1DGridManifoldInterpolationMethod)
+        from skyllh.core.detsigyield import DetSigYield
+        from skyllh.core.services import (DatasetSignalWeightFactorsService, DetSigYieldService,
+                                          SrcDetSigYieldWeightsService)
+        from skyllh.core.utils.coords import angular_separation
+        self.c = c
+        w = WORLDS[c['world']]
+        self.cfg = cfg = Config()
+        self.trace = []
+        self.cur = src
+        self.kept = []
+        self.rigs = ()
+
+        def mk_shg(k):
+            ss = [PointLikeSource(name=f's{j}', ra=ra, dec=dec) for j, (ra, dec) in enumerate(CHAIN_SOURCES[k])]
+            fm = SteadyPointlikeFFM(Phi0=1, energy_profile=PowerLawEnergyFluxProfile(E0=1e3, gamma=2, cfg=cfg), cfg=cfg)
+            return SourceHypoGroupManager(SourceHypoGroup(sources=ss, fluxmodel=fm, detsigyield_builders=[], sig_gen_method=None))
+        self.shgs = {k: mk_shg(k) for k in CHAIN_SOURCES}
+        shg = self.shgs[src]
+        self.pmm = pmm = ParameterModelMapper(models=shg.source_list)
+        pmm.map_param(Parameter('ns', 10, 0, 1000))
+        # the minimiser stays where the PDF set has PDFs for the neighbouring grid values
+        p_g = Parameter('gamma', w['lb'] + 2.3 * w['delta'], w['lb'] + 1.2 * w['delta'], w['lb'] + (w['npts'] - 2.2) * w['delta'])
+        pmm.map_param(p_g, models=shg.source_list)
+        self.tdm = tdm = TrialDataManager()
+        tdm.add_source_data_field('src_array', lambda tdm, shg_mgr, pmm: np.array(
+            [(s_.ra, s_.dec) for s_ in shg_mgr.source_list], dtype=[('ra', np.float64), ('dec', np.float64)]))
+
+        def psi(tdm, shg_mgr, pmm):
+            (si, ei) = tdm.src_evt_idxs
+            sa = tdm.get_data('src_array')
+            return angular_separation(np.take(sa['ra'], si), np.take(sa['dec'], si),
+                                      np.take(tdm.get_data('ra'), ei), np.take(tdm.get_data('dec'), ei))
+        tdm.add_data_field('psi', psi, is_srcevt_data=True)
+        tdm.add_data_field('sin_dec', lambda tdm, shg_mgr, pmm: np.sin(tdm.get_data('dec')))
+        sig_sp = RayleighPSFPointSourceSignalSpatialPDF(cfg=cfg)
+        rs = np.random.RandomState(3)
+        self.bkg_sp = BackgroundI3SpatialPDF(
+            data_sin_dec=rs.uniform(-1, 1, 500), data_weights=np.ones(500),
+            sin_dec_binning=BinningDefinition('sin_dec', np.linspace(-1, 1, 11)), spline_order_sin_dec=2, cfg=cfg)
+        spatial = SigOverBkgPDFRatio(sig_pdf=sig_sp, bkg_pdf=self.bkg_sp, same_axes=False, cfg=cfg)
+        gridvals = np.array([w['lb'] + k * w['delta'] for k in range(w['npts'])])
+        grid = ParameterGrid('gamma', gridvals, delta=w['delta'])
+        bx = BinningDefinition('x', np.linspace(0, 10, 11))
+        pdfs = []
+        for k, g in enumerate(gridvals):
+            data = np.linspace(1.0, 2.0, 11) * (1.0 + 0.1 * k) + 0.05 * np.sin(np.arange(11) * (k + 1))
+            pdfs.append(({'gamma': g}, SignalMultiDimGridPDF(pmm=pmm, axis_binnings=[bx], pdf_grid_data=data,
+                                                             cache_pd_values=c['cache'], cfg=cfg)))
+        icls = Parabola1DGridManifoldInterpolationMethod if c['interp'] == 'par' else Linear1DGridManifoldInterpolationMethod
+        sigset = SignalMultiDimGridPDFSet(pmm=pmm, param_set=ParameterSet([p_g]), param_grid_set=grid,
+                                          gridparams_pdfs=pdfs, interpol_method_cls=icls, cfg=cfg)
+        bkg_e = BackgroundMultiDimGridPDF(pmm=pmm, axis_binnings=[bx], pdf_grid_data=np.linspace(2.0, 1.0, 11),
+                                          cache_pd_values=c['cache'], cfg=cfg)
+        energy = SigOverBkgPDFRatio(sig_pdf=sigset, bkg_pdf=bkg_e, same_axes=False, cfg=cfg)
+        product = PDFRatioProduct(spatial, energy, cfg=cfg)
+
+        class ConstDetSigYield(DetSigYield):
+            def __init__(self):
+                pass
+
+            def sources_to_recarray(self, sources):
+                rec = np.empty((len(sources),), dtype=[('dec', np.float64)])
+                for (i, s_) in enumerate(sources):
+                    rec[i]['dec'] = s_.dec
+                return rec
+
+            def __call__(self, src_recarray, src_params_recarray):
+                return (2.0 + src_recarray['dec'], dict())
+
+        class Svc(DetSigYieldService):
+            def construct_detsigyield_array(self, ppbar=None):
+                arr = np.empty((1, self._shg_mgr.n_src_hypo_groups), dtype=object)
+                for g_ in range(self._shg_mgr.n_src_hypo_groups):
+                    arr[0, g_] = ConstDetSigYield()
+                return arr
+        self.dsy = Svc(shg_mgr=shg, dataset_list=[], data_list=[])
+        w1 = SrcDetSigYieldWeightsService(detsigyield_service=self.dsy)
+        w2 = DatasetSignalWeightFactorsService(src_detsigyield_weights_service=w1)
+        weighted = SourceWeightedPDFRatio(dataset_idx=0, src_detsigyield_weights_service=w1, pdfratio=product, cfg=cfg)
+        single = ZeroSigH0SingleDatasetTCLLHRatio(pmm=pmm, minimizer=Minimizer(LBFGSMinimizerImpl(cfg=cfg)), shg_mgr=shg,
+                                                  tdm=tdm, pdfratio=weighted, cfg=cfg)
+        self.llh = MultiDatasetTCLLHRatio(pmm=pmm, minimizer=Minimizer(LBFGSMinimizerImpl(cfg=cfg)),
+                                          src_detsigyield_weights_service=w1, ds_sig_weight_factors_service=w2,
+                                          llhratio_list=[single], cfg=cfg)
+
+    def sid(self):
+        return int(self.tdm.trial_data_state_id)
+
+    def probe_state(self, site):
+        out = []
+        if getattr(self, 'cur_events', None) is not None:
+            (ev, cols) = self.cur_events
+            for name, vals in cols.items():
+                if not np.array_equal(np.asarray(ev[name]), vals):
+                    out.append(('TrialDataManager.events', 'caller-array-modified',
+                                f'after {site}: column {name} of the events array handed to initialize_trial changed'))
+        for (s0, arr, cp) in self.kept:
+            if not np.array_equal(arr, cp, equal_nan=True):
+                out.append((s0, 'returned-array-changed-later', f'after {site}: an array returned by an earlier {s0} call changed'))
+        return out
+
+    def do(self, op):
+        from skyllh.core.storage import DataFieldRecordArray as DFRA
+        kind = op[0]
+        self.arg_damage = []
+        w = WORLDS[self.c['world']]
+        try:
+            if kind == 'init':
+                (rows, n) = CHAIN_DATA[op[1]]
+                arr = np.array(rows, dtype=[('ra', np.float64), ('dec', np.float64), ('ang_err', np.float64), ('x', np.float64)])
+                ev = DFRA(arr)
+                self.tdm.initialize_trial(self.shgs[self.cur], self.pmm, ev, n_events=n)
+                self.cur_events = (ev, {k: arr[k].copy() for k in arr.dtype.names})
+                self.llh.initialize_for_new_trial()
+                return ['init', 'Ok']
+            if kind == 'src':
+                self.cur = op[1]
+                self.dsy.change_shg_mgr(self.shgs[op[1]])
+                self.llh.change_shg_mgr(self.shgs[op[1]])
+                return ['none']
+            if kind == 'eval':
+                if not hasattr(self, 'fp_buf'):
+                    self.fp_buf = np.zeros((2,), dtype=np.float64)
+                fp = self.fp_buf
+                fp[:] = [float(NS[op[1]]), w['xs'][op[1]]]
+                fp0 = fp.copy()
+                (ll, grads) = self.llh.evaluate(fp)
+                if not np.array_equal(fp, fp0):
+                    self.arg_damage.append(('MultiDatasetTCLLHRatio.evaluate', 'argument-modified', 'fitparam_values changed by evaluate'))
+                self.kept = (self.kept + [('MultiDatasetTCLLHRatio.evaluate', grads, grads.copy())])[-4:]
+                return ['eval', 'Ok', [float(ll)] + [float(g) for g in grads]]
+            if kind == 'ns2':
+                rec = self.pmm.create_src_params_recarray(np.array([float(op[1]), w['xs']['p']]))
+                return ['ns2', 'Ok', [float(self.llh.calculate_ns_grad2(ns=float(op[1]), ns_pidx=0, src_params_recarray=rec))]]
+            if kind == 'max':
+                from skyllh.core.random import RandomStateService
+                from skyllh.core.test_statistic import WilksTestStatistic
+                (llmax, fpmax, status) = self.llh.maximize(rss=RandomStateService(seed=1))
+                ts = WilksTestStatistic()(pmm=self.pmm, log_lambda=llmax, fitparam_values=fpmax)
+                return ['max', 'Ok', [float(llmax)] + [float(v) for v in fpmax] + [float(ts)]]
+        except Exception as ex:
+            return [kind if kind in ('eval', 'ns2', 'max', 'init') else 'none', 'Err', type(ex).__name__]
+        raise ValueError(op)
+
+
 def make_rig(c, src):
+    if c.get('chain'):
+        return ChainRig(c, src)
     return MRig(c, src) if c.get('multi') else Rig(c, src)
 
 
@@ -630,6 +813,8 @@ def same_obs(a, b):
 
 def llh_name(c):
     m = c.get('multi')
+    if c.get('chain'):
+        return 'MultiDatasetTCLLHRatio[SourceWeightedPDFRatio(PDFRatioProduct)]'
     if not m:
         return 'ZeroSigH0SingleDatasetTCLLHRatio'
     return 'NsProfileMultiDatasetTCLLHRatio' if m['profile'] else 'MultiDatasetTCLLHRatio'
@@ -670,13 +855,10 @@ class Tracker:
             self.cur_src = op[1]
         elif op[0] in ('eval', 'max'):
             ctx.count(op[0] + ':' + (op[1] if op[0] == 'eval' else ''))
-            if op[0] == 'max':
-                self.unknown_nsg = True
-            elif ob[1] == 'Ok':
-                self.last_ok, self.last_failed, self.unknown_nsg = op[1], False, False
-            else:
-                self.last_failed = True
-                ctx.count('eval-raises:' + ob[2])
+            # the ns-gradients are those of the last evaluation (of the maximisation's last query), also when it raised
+            self.last_ok, self.last_failed, self.unknown_nsg = (op if op[0] == 'max' else op[1]), False, False
+            if ob[1] != 'Ok':
+                ctx.count(op[0] + '-raises:' + ob[2])
             if in_protocol:
                 want = self.oracle.replay(c, self.cur_src, [('init', self.data), op])
                 if not same_obs(ob, want):
@@ -691,12 +873,13 @@ class Tracker:
             ctx.count('ns2')
             want = None
             if self.data is None:
-                if not c.get('multi'):
+                if not c.get('multi') and not c.get('chain'):
                     want = ['ns2', 'Err', 'RuntimeError']
             elif not in_protocol or self.last_failed or self.unknown_nsg:
                 ctx.count('ns2-outside-guard')
             else:
-                pre = [('init', self.data)] + ([('eval', self.last_ok)] if self.last_ok not in (None, '@init') else [])
+                lo = self.last_ok
+                pre = [('init', self.data)] + ([] if lo in (None, '@init') else [lo if isinstance(lo, tuple) else ('eval', lo)])
                 want = self.oracle.replay(c, self.cur_src, pre + [op])
             if want is not None and not same_obs(ob, want):
                 self.viol(f'{name}.calculate_ns_grad2', 'depends-on-history',
@@ -735,7 +918,7 @@ def run_history(ctx, c, hist, oracle, groups, model_exprs, checks):
     for _ in hist:
         t.step()
     t.finish()
-    if model_comparable(hist):
+    if model_comparable(hist) and not c.get('chain'):
         model_exprs.append(history_coq(c, hist))
         checks.append((c, hist, t.steps))
 
@@ -751,7 +934,7 @@ def run_pair(ctx, ca, ha, cb, hb, oracle, model_exprs, checks):
         if k < len(hb):
             tb.step()
     for (t, c, h) in ((ta, ca, ha), (tb, cb, hb)):
-        if model_comparable(h):
+        if model_comparable(h) and not c.get('chain'):
             model_exprs.append(history_coq(c, h))
             checks.append((c, h, t.steps))
 
@@ -911,6 +1094,10 @@ def gen_cases(ctx):
     for c in MULTI_CFGS:
         for h in MULTI_HISTORIES + corpus_histories()[:4] + MAX_HISTORIES[:3]:
             cases.append(('one', c, h))
+    # the chain of per-trial precomputing PDFs, PDFRatioProduct and SourceWeightedPDFRatio with two sources (predicates)
+    for c in CHAIN_CFGS:
+        for h in MULTI_HISTORIES + corpus_histories()[:5] + MAX_HISTORIES:
+            cases.append(('one', c, [o for o in h if o != ('eval', 'out')]))
     # maximisation result and test statistic (predicate only: the model has no minimizer)
     singles = [c for c in ALL_CFGS if not c.get('reuse')]
     for k, h in enumerate(MAX_HISTORIES):
@@ -950,7 +1137,7 @@ def gen_cases(ctx):
         cases.append(('one', rng.choice(MULTI_CFGS), h))
     # two instances built before first use, driven alternately
     for _ in range(npair):
-        ca = rng.choice(ALL_CFGS + MULTI_CFGS)
+        ca = rng.choice(ALL_CFGS + MULTI_CFGS + CHAIN_CFGS)
         cb = dict(rng.choice(ALL_CFGS)) if rng.random() < 0.6 else dict(ca)
         cases.append(('pair', ca, random_history(rng), cb, random_history(rng)))
     return cases
